@@ -73,17 +73,20 @@ META = {'design_ref': 'DESIGN.md section 7 / C17',
                'call returned is the answer of the resolver-level theorem on the bindings since the last accepted CONNACK: the latest binding of that alias, '
                'or InvalidInboundTopicAlias for an unknown / zero / out-of-range alias (C17_instance_inbound_resolution); a resolver error fails the data call '
                'with that error, halts the engine and is the last event of the step: nothing is surfaced for that packet (C17_inbound_error_fails, every '
-               'state). Non-vacuity: vm_compute run of the concrete engine with an LRU resolver in which a QoS 1 publish is rejected after its alias was bound '
-               '(C17_run_witness_outbound / _premises / _inbound). NOT PROVED at run level: that the bytes produced by the encoder for (packet, resolution) '
-               "are what the server parses (C02, per packet kind), that a submitted topic is non-empty (a guarantee of the clients' submission-time validator, "
-               "not of the engine's last-chance validator), and the link from the log statements to the byte stream; these stay with the extracted monitor "
-               'mon_c17_out / mon_c17_in on the implementation trace (exploration, not proof). D22 (fixed by /repo 10d5c82): before the fix the LRU resolver '
-               'returned alias 0 for the 65536th distinct topic when configured with 65535 and the server announced 65535 (alias.rs:206 `(len + 1) as u16`); '
-               'witness `F 65535` in corpus/C17/resolver.txt is a regression case now. D7 (fixed by /repo b059c31): the resolver recorded a binding before '
-               'last-chance validation. Engine-level monitors on the implementation trace: mon_c17_out (the server-side alias table reconstructed from the '
-               'wire gives the submitted topic; alias in 1..Topic Alias Maximum of the CONNACK; none under 3.1.1 or maximum 0) and mon_c17_in (a publish '
-               'accepted with an alias has it in 1..the maximum the CONNECT announced, an empty topic refers to an alias bound on this connection, and the '
-               'message is surfaced with the topic that table gives).',
+               'state). Bindings do not survive a reconnect: a data call surfaces a PUBLISH only if the engine was Connected / PendingDisconnect before the '
+               'call or, while it was waiting for the CONNACK, accepted the CONNACK (resetting the inbound resolver) earlier in the same call '
+               '(C17_surface_needs_connack, every state; that the engine is waiting for the CONNACK from the opening of a connection until one is accepted is '
+               'the C07 run-level theorem). Non-vacuity: vm_compute run of the concrete engine with an LRU resolver in which a QoS 1 publish is rejected after '
+               'its alias was bound (C17_run_witness_outbound / _premises / _inbound). NOT PROVED at run level: that the bytes produced by the encoder for '
+               "(packet, resolution) are what the server parses (C02, per packet kind), that a submitted topic is non-empty (a guarantee of the clients' "
+               "submission-time validator, not of the engine's last-chance validator), and the link from the log statements to the byte stream; these stay "
+               'with the extracted monitor mon_c17_out / mon_c17_in on the implementation trace (exploration, not proof). D22 (fixed by /repo 10d5c82): before '
+               'the fix the LRU resolver returned alias 0 for the 65536th distinct topic when configured with 65535 and the server announced 65535 '
+               '(alias.rs:206 `(len + 1) as u16`); witness `F 65535` in corpus/C17/resolver.txt is a regression case now. D7 (fixed by /repo b059c31): the '
+               'resolver recorded a binding before last-chance validation. Engine-level monitors on the implementation trace: mon_c17_out (the server-side '
+               'alias table reconstructed from the wire gives the submitted topic; alias in 1..Topic Alias Maximum of the CONNACK; none under 3.1.1 or maximum '
+               '0) and mon_c17_in (a publish accepted with an alias has it in 1..the maximum the CONNECT announced, an empty topic refers to an alias bound on '
+               'this connection, and the message is surfaced with the topic that table gives).',
  'technique': 'machine-checked proof in Coq (induction over resolver operation histories; run-level engine theorems by induction over event histories with an '
               'instrumented model and a reference log machine; engine handler theorems) + lock-step correspondence + extracted monitor on the implementation '
               'trace'}
